@@ -142,12 +142,11 @@ WellFormed(toks) == LexOk(toks) /\ Len(toks) >= 1 /\ IsPred(toks, 1, Len(toks))
 
 \* ---- what an implementation may answer ("T", "F", or "E" = rejected with the project's error) ---------
 BoolAns(b) == IF b THEN "T" ELSE "F"
-Allowed(toks, cfg) ==
-    LET strict == Parse(toks, FALSE)
-        lax == Parse(toks, TRUE)
-    IN IF strict.ok THEN {BoolAns(Eval(strict.ast, cfg))} \cup (IF strict.trail THEN {"E"} ELSE {})
-       ELSE IF lax.ok THEN {"E", BoolAns(Eval(lax.ast, cfg))}
-       ELSE {"E"}
+AllowedWith(strict, lax, cfg) ==
+    IF strict.ok THEN {BoolAns(Eval(strict.ast, cfg))} \cup (IF strict.trail THEN {"E"} ELSE {})
+    ELSE IF lax.ok THEN {"E", BoolAns(Eval(lax.ast, cfg))}
+    ELSE {"E"}
+Allowed(toks, cfg) == AllowedWith(Parse(toks, FALSE), Parse(toks, TRUE), cfg)
 
 \* "cfg(" ... ")" -> the text between, or <<0>> (never a valid expression) when the text is not of that form
 CfgPrefix == <<99, 102, 103, 40>>
